@@ -223,7 +223,7 @@ func main() {
 				}
 			}
 			for i, a := range r.Aborts {
-				if i < 5 {
+				if i < 2 {
 					fmt.Fprintf(os.Stderr, "    ABORT %s\n", trunc(a, 400))
 				}
 			}
